@@ -4,7 +4,7 @@
   and two ways of recognising an arena that is NOT well-formed.
 -/
 import XotModel.Lemmas.ArenaExamples
-import XotModel.Lemmas.ArenaStaleMut
+import XotModel.Lemmas.ArenaStaleIndex
 import XotModel.Lemmas.ArenaStaleLive
 
 namespace XotModel
